@@ -88,6 +88,10 @@ def run(tier="quick", seed=1, work=None, replay=None, focus="C10", ncases=None):
                 # possible fault of a real file system, and sy rightly treats it as "already deleted"
                 if c in ("unlink", "unlinkat") and e == "ENOENT": e = "EIO"
                 plan.append((c, rng.range(1, n), e))
+            # always some faults on reads of the trees' own files: outside --checksum these are the post-transfer verification
+            # re-reads and the block comparisons of the delta path (seeded change C19b: a verification that could not be done)
+            for _ in range(3 if tier == "quick" else 8):
+                if counts.get("read", 0) > 0: plan.append(("read", rng.range(1, counts["read"]), "EIO"))
             for (call, k, errno_) in plan:
                 shutil.copytree(pristine, case_dir, symlinks=True); fix_mtimes(pristine, case_dir)
                 one_fault(rep, drv, contents, ci, seed, case_dir, src_root, dst_root, out_root, flags, cfg, env, excl, [(call, k, errno_)], ref_dst, rc0)
@@ -172,6 +176,9 @@ def one_fault(rep, drv, contents, ci, seed, case_dir, src_root, dst_root, out_ro
             if not any(rel == e or rel.startswith(e + "/") or e.startswith(rel + "/") for e in real_errors):
                 rep.oracle_fail("C10/unreported-wrong-entry", f"{rel} ({kind}) is wrong after the run but no error event names it (faults {faults})", desc); break
     if bad: rep.oracle_fail("C19/non-json-line-on-stdout", f"stdout lines that are not JSON objects under faults: {bad[:2]}", desc)
+    # a verification that could not be carried out (I/O error on the re-read) is a verification failure, not nothing
+    es.verified_counter_oracle(rep, desc, summ, real_events, pre_src, flags, cfg, rc)
+    if rc == 0 and summ and summ.get("verification_failures", 0) > 0: rep.oracle_fail("C10/exit-zero-with-verification-failures", "exit 0 with verification_failures > 0", desc)
     # ---- K: the model under the fault plan "exactly the tasks reported as failed fail, leaving what was observed"
     # (faults in read-only calls can also hit the planning phase — checksum reads, stats — where the code falls back to
     #  "transfer anyway"; the fault-plan model only speaks about task execution, so K is evaluated for mutating calls)
